@@ -128,10 +128,17 @@ def impl(case):
     # a request that does not terminate (e.g. filter rejecting every item of an endless stream)
     # is cut by a CPU-time alarm; a first alarm is confirmed by a second run with a longer
     # budget, so that a stalled machine can never turn into a reported "hang"
-    steps, timed_out = _run_history(case, 3.0)
+    global _HANGS
+    first, second = (3.0, 15.0) if _HANGS < 3 else (1.0, 4.0)   # keep shrinking a real hang affordable
+    steps, timed_out = _run_history(case, first)
     if timed_out:
-        steps, timed_out = _run_history(case, 15.0)
+        steps, timed_out = _run_history(case, second)
+        if timed_out:
+            _HANGS += 1
     return {"steps": steps}
+
+
+_HANGS = 0
 
 
 def _run_history(case, budget):
